@@ -240,10 +240,12 @@ func (o *sfObj) writeAt(b []byte, off int64) (int, error) {
 		return 0, os.ErrNotExist
 	}
 	end := off + int64(len(b))
-	if end > int64(len(nd.data)) {
+	if len(b) > 0 && end > int64(len(nd.data)) {
 		nd.data = append(nd.data, make([]byte, end-int64(len(nd.data)))...)
 	}
-	copy(nd.data[off:], b)
+	if len(b) > 0 {
+		copy(nd.data[off:], b)
+	}
 	return len(b), nil
 }
 
